@@ -111,6 +111,7 @@ def make_judge(chk, stats):
 
 def run(tier):
     chk = vlib.Check(PID, tier, 'model_checking')
+    chk.soft_guards_when_cut = False          # quick is deadline-bounded by design; the guards below hold long before any cut
     vlib.build('plain')
     allf = zoo.standard_files()
     files = {k: allf[k] for k in ('F1f', 'F2', 'F2z')}
